@@ -298,7 +298,7 @@ fn seeded_case(job: &Job) {
     let n_trees = job.u("n_trees");
     let p = rows[0].len();
     let nseeds = job.u("seeds");
-    let seed = job.u("seed0") as u64 + mc::choose(nseeds) as u64;
+    let seed = job.params["seed0"].as_u64().expect("seed0") + mc::choose(nseeds) as u64;
     let m = match mc::choose(p + 1) {
         0 => None,
         k => Some(k),
@@ -588,6 +588,17 @@ impl Harness for C06 {
                 }
             }
         }
+        // (a') the top of the seed range: u64::MAX - 7 ..= u64::MAX (seed arithmetic must not overflow)
+        for (di, _) in catalogue().iter().enumerate().take(3) {
+            for regression in [false, true] {
+                for n_trees in [1usize, 2, 3] {
+                    jobs.push(Job::new(
+                        format!("seeded-{}-d{}-t{}-top", if regression { "reg" } else { "cls" }, di, n_trees),
+                        json!({"kind": "seeded", "data": di, "regression": regression, "n_trees": n_trees, "seed0": u64::MAX - 7, "seeds": 8}),
+                    ));
+                }
+            }
+        }
         // (c) class-size family: every n x every class-size layout
         for n in 4..=120usize {
             for sd in 0..(if t { 4usize } else { 1 }) {
@@ -610,7 +621,7 @@ impl Harness for C06 {
             bounds: json!({
                 "builders": mc_sc::builders::BOUNDS,
                 "entry_paths": mc_sc::entry::BOUNDS,
-                "seeded": format!("8 lattice data sets (one centred: thresholds and gains exactly 0) x {{classifier, regressor}} x seeds {}..{} x n_trees {{1,2,3,5,10,30}} x m in {{None,1..p}} x 6 (max_depth, min_samples_leaf, min_samples_split) settings x keep_samples x 3 criteria", seed0, seed0 as usize + nseeds),
+                "seeded_top_of_range": "3 data sets x {classifier, regressor} x n_trees {1,2,3} x seeds u64::MAX-7..=u64::MAX x the same configuration choices", "seeded": format!("8 lattice data sets (one centred: thresholds and gains exactly 0) x {{classifier, regressor}} x seeds {}..{} x n_trees {{1,2,3,5,10,30}} x m in {{None,1..p}} x 6 (max_depth, min_samples_leaf, min_samples_split) settings x keep_samples x 3 criteria", seed0, seed0 as usize + nseeds),
                 "row_counts_regressor": "regressor, p=1: every n in 4..=120 x 2 target patterns x n_trees in {1,2}, all n training rows predicted in one call (mean of member trees, target range, OOB)",
                 "class_sizes": "classifier, p=1 distinct values: every n in 4..=120 x every two-class split (c, n-c), c=1..n-1, and three layouts with singleton classes, rows contiguous or interleaved, integer labels {-3,7,10} or fractional labels {0.25,0.75,1.5} that share integer parts, 2 trees, keep_samples (1 seed quick, 4 thorough): stratification and all other classifier clauses",
                 "bootstrap": "n=4 rows (2+2 classes / 2 target vectors), 3 layouts per p in {1,2}, n_trees in {1,2}, m in {p, 1}: EVERY bootstrap outcome (16 per classifier tree, 256 per regressor tree) and every feature-subsampling shuffle",
